@@ -546,6 +546,8 @@ def run(ctx, model):
     # a live TupimageTerminal whose num_tmux_layers is re-assigned: it must behave like one constructed with the new count
     import c08_cli
     c08_cli.reconfigure_equivalence(ctx, cov, ctx.pick(24, 120), must_change=["num_tmux_layers"])
+    # the command line wraps like the library call in the same environment / with the same configuration file
+    c08_cli.cli_equivalence(ctx, cov, ctx.pick(24, 80), env_rate=0.8)
     return cov
 
 
